@@ -933,6 +933,10 @@ class PDFDocument:
             raise PDFKeyError((cat, key))
         # may raise KeyError
         d0 = dict_value(names[cat])
+        if not isinstance(key, bytes):
+            # The keys of a name tree are byte strings: a name object (str)
+            # cannot be in it and cannot be ordered against the Limits.
+            raise PDFKeyError((cat, key))
 
         def lookup(d: Dict[str, Any]) -> Any:
             if "Limits" in d:
